@@ -126,7 +126,22 @@ pub fn all_well_formed() -> &'static Vec<Move> {
     })
 }
 
+/// Move::from_castling = the checked constructor on the king's castling squares
+fn check_castling_ctor(ctx: &mut Ctx) {
+    for (color, home) in [(owlchess::Color::White, 7usize), (owlchess::Color::Black, 0usize)] {
+        for (side, kind, file) in [(owlchess::CastlingSide::King, MoveKind::CastlingKingside, 6usize), (owlchess::CastlingSide::Queen, MoveKind::CastlingQueenside, 2usize)] {
+            ctx.states += 1;
+            let got = Move::from_castling(color, side);
+            let want = Move::new(kind, Cell::from_parts(color, owlchess::Piece::King), Coord::from_index(home * 8 + 4), Coord::from_index(home * 8 + file));
+            if want.as_ref().ok() != Some(&got) || !got.is_well_formed() {
+                ctx.violate(json!({"kind": "castling_ctor", "color": format!("{:?}", color), "side": format!("{:?}", side)}), format!("Move::from_castling gives {:?}, the checked constructor {:?}", got, want));
+            }
+        }
+    }
+}
+
 fn check_tuples(ctx: &mut Ctx) {
+    check_castling_ctor(ctx);
     for kind in KINDS {
         for cell in Cell::iter() {
             let mc = mcell(cell);
@@ -393,6 +408,7 @@ pub fn run(run: &mut Run) {
 pub fn replay(case: &Value, ctx: &mut Ctx) {
     match case["kind"].as_str() {
         Some("tuple") => replay_tuple(case, ctx),
+        Some("castling_ctor") => check_castling_ctor(ctx),
         _ => replay_pos(case, ctx, &check_pos),
     }
 }
